@@ -30,6 +30,7 @@ POOLS = {
     'boolobj': [True, False],
     'boolean': [True, False],
     'object-str': ['', 'a', 'ab', 'é£'],
+    'object-strnan': ['', 'a', 'ab'],
     'object-strx': ["a'b", 'a b', 'A1', '\\d', '^-', 'x\ny', '١٢', 'x²', 'a"b'],
     'category': ['a', 'bb', ''],
     'string': ['a', 'bb', ''],
@@ -40,13 +41,13 @@ POOLS = {
     'datetime-tz': [T0, T1],
     'dateobj': [datetime.date(2020, 1, 1), datetime.date(1999, 12, 31)],
 }
-NULLABLE = {'Int64', 'float64', 'float64x', 'boolobj', 'boolean', 'object-str',
+NULLABLE = {'Int64', 'float64', 'float64x', 'boolobj', 'boolean', 'object-str', 'object-strnan',
             'object-strx', 'category', 'string', 'datetime64[ns]', 'datetime64[us]',
             'datetime64[ms]', 'datetime64[s]', 'datetime-tz', 'dateobj'}
 EXPECTED_TTYPE = {
     'int64': 'int', 'int8': 'int', 'uint8': 'int', 'Int64': 'int', 'int64big': 'int', 'uint64': 'int',
     'float64': 'real', 'float64x': 'real', 'bool': 'bool', 'boolobj': 'bool',
-    'boolean': 'bool', 'object-str': 'string', 'object-strx': 'string',
+    'boolean': 'bool', 'object-str': 'string', 'object-strx': 'string', 'object-strnan': 'string',
     'category': 'string', 'string': 'string', 'datetime64[ns]': 'date',
     'datetime64[us]': 'date', 'datetime64[ms]': 'date', 'datetime64[s]': 'date',
     'datetime-tz': 'date', 'dateobj': 'date',
@@ -71,6 +72,9 @@ def make_series(family, values):
         return pd.Series([pd.NA if v is None else v for v in vals], dtype='boolean')
     if family in ('object-str', 'object-strx'):
         return pd.Series(vals, dtype=object)
+    if family == 'object-strnan':
+        # nulls are fresh float NaN objects, not None and not the numpy singleton
+        return pd.Series([float('nan') if v is None else v for v in vals], dtype=object)
     if family == 'category':
         return pd.Series(pd.Categorical(vals))
     if family == 'string':
@@ -126,7 +130,7 @@ def random_cases(family, n, rows, seed):
 
 
 FAMILIES_QUICK = ['int64', 'int64big', 'uint64', 'uint8', 'Int64', 'float64', 'float64x', 'bool', 'boolobj', 'boolean',
-                  'object-str', 'object-strx', 'category', 'datetime64[ns]',
+                  'object-str', 'object-strnan', 'object-strx', 'category', 'datetime64[ns]',
                   'datetime64[us]', 'datetime64[s]', 'datetime-tz', 'dateobj']
 # the pandas 'string' extension dtype is not among the column types of C01's
 # quantifier (object-dtype strings and categoricals are); it is exercised by C05
